@@ -63,13 +63,13 @@ type Result struct {
 
 type Ctx struct {
 	KeepDown map[string]bool // nodes that stay down in the fault-free period (a majority must remain)
-	C    *cluster.Cluster
-	M    *mon.Monitor
-	R    *rand.Rand
-	P    Params
-	Res  *Result
-	Root string
-	Seed int64
+	C        *cluster.Cluster
+	M        *mon.Monitor
+	R        *rand.Rand
+	P        Params
+	Res      *Result
+	Root     string
+	Seed     int64
 
 	stop        atomic.Bool
 	cliWG       sync.WaitGroup
@@ -484,6 +484,7 @@ type Profile struct {
 	Torn         bool
 	CrashBias    bool
 	Bounce       bool // in-process Stop+Restart on the same object as a step kind
+	Hold         bool // hold requests/replies of one link in a gate across later steps (leader changes, heals), release later
 	StepGapMaxMs int
 }
 
@@ -558,6 +559,7 @@ func RandomSchedule(x *Ctx, pf Profile) {
 		}
 		time.Sleep(time.Duration(5+r.Intn(g)) * time.Millisecond)
 	}
+	var holds []*simnetRule
 	for s := 0; s < pf.Steps; s++ {
 		gap()
 		kinds := []string{"partition", "oneway", "heal", "noise", "isolate-leader", "pause", "heal"}
@@ -566,6 +568,9 @@ func RandomSchedule(x *Ctx, pf Profile) {
 		}
 		if pf.Bounce {
 			kinds = append(kinds, "bounce", "bounce", "bounce")
+		}
+		if pf.Hold {
+			kinds = append(kinds, "hold", "hold", "hold", "release", "release")
 		}
 		if pf.CrashBias {
 			// crash-point coverage runs: mostly planned crashes at storage boundaries, followed by restarts
@@ -596,7 +601,39 @@ func RandomSchedule(x *Ctx, pf Profile) {
 			}
 		case "heal":
 			x.Step("heal")
-			x.C.Net.Heal()
+			if pf.Hold {
+				x.C.Net.ClearLinks() // held messages stay held: they are delivered by a later "release" (or at the end)
+			} else {
+				x.C.Net.Heal()
+			}
+		case "hold":
+			if len(all) < 2 || len(holds) >= 4 {
+				continue
+			}
+			from := pick(r, all)
+			kind := []string{"AE", "AE", "RV", "IS", ""}[r.Intn(5)]
+			if l := x.C.Leader(); l != "" && kind != "RV" && r.Intn(4) > 0 {
+				from = l // replication traffic comes from the leader
+			}
+			to := pick(r, minus(all, []string{from}))
+			replies := r.Intn(3) > 0
+			what := "requests"
+			if replies {
+				what = "replies to requests"
+			}
+			x.Step("hold up to %s %s %s -> %s", map[string]string{"": "all"}[kind]+kind, what, from, to)
+			rule := x.C.Net.AddRule(&simnetRule{Name: "hold", Gate: simnetNewGate(), MaxHits: 1 + r.Intn(40), Match: func(m *mon.Msg, reply bool) bool {
+				return reply == replies && m.From == from && m.To == to && (kind == "" || m.Kind == kind)
+			}})
+			holds = append(holds, rule)
+			x.NT("held-messages")
+		case "release":
+			if len(holds) == 0 {
+				continue
+			}
+			x.Step("release the oldest held messages (%d)", holds[0].Gate.HeldCount())
+			x.C.Net.RemoveRule(holds[0])
+			holds = holds[1:]
 		case "noise":
 			loss, delay, dup := r.Intn(30), r.Intn(8000), r.Intn(20)
 			x.Step("noise loss=%d%% delay<=%dus dup=%d%%", loss, delay, dup)
